@@ -191,7 +191,7 @@ def run_chunk(args):
             f = fields("T " + c)
             if c != m:
                 fail({"kind": "model-mismatch", "level": "tree", "op": name, "cpp": c[:300], "model": (m or "")[:300]})
-            if f.get("ok") != "1":
+            if f.get("ok") not in ("1", "~"):
                 fail({"kind": "ok-false", "op": name, "cpp": c[:300]})
             try:
                 R = int(f.get("R", "0")); S = int(f.get("S", "0"))
@@ -276,7 +276,7 @@ def run(chk):
             plan = [("t", 1300, 40), ("t", 250, 300), ("t", 3, 1200), ("e", 700, 0), ("u", 60, 0)]
             per = 100
         else:
-            plan = [("t", 90000, 40), ("t", 29000, 200), ("t", 900, 1000), ("t", 24, 5000), ("e", 79000, 0), ("u", 1100, 0)]
+            plan = [("t", 90000, 40), ("t", 29000, 200), ("t", 900, 1000), ("t", 16, 5000), ("e", 79000, 0), ("u", 1100, 0)]
             per = 1500
         hid = 0
         ci = 0
